@@ -78,6 +78,9 @@ func svTx(v any) *ledger.Transaction {
 	}
 	tx.Metadata = svMeta(j["metadata"])
 	tx.Timestamp = svTime(svInt(j["timestamp"]))
+	if tz, ok := j["tz"]; ok && svInt(tz) != 0 { // the client wrote the instant with a UTC offset (ParseTime keeps it)
+		tx.Timestamp = ledger.Time{Time: tx.Timestamp.Time.In(time.FixedZone("", int(svInt(tz))*60))}
+	}
 	tx.Reference, _ = j["reference"].(string)
 	return tx
 }
@@ -170,11 +173,31 @@ func execStoreView(in J) J {
 		stores[n] = storage.NewInMemoryStore()
 	}
 	viaJSON, _ := in["viaJSON"].(bool)
+	stored := []J{}
 	for _, l := range in["logs"].([]any) {
 		lj := l.(map[string]any)
 		st := stores[lj["ledger"].(string)]
-		if err := st.InsertLogs(ctx, svLog(lj, viaJSON)); err != nil {
+		cl := svLog(lj, viaJSON)
+		if err := st.InsertLogs(ctx, cl); err != nil {
 			return J{"error": "insert: " + err.Error()}
+		}
+		if txj, ok := lj["tx"].(map[string]any); ok {
+			if tz, ok := txj["tz"]; ok && svInt(tz) != 0 {
+				// what ledgerstore.InsertLogs would COPY into logs.data (json.Marshal of the payload): the timestamp text
+				raw, err := json.Marshal(cl.Data)
+				if err != nil {
+					panic(err)
+				}
+				var probe struct {
+					Transaction struct {
+						Timestamp string `json:"timestamp"`
+					} `json:"transaction"`
+				}
+				if err := json.Unmarshal(raw, &probe); err != nil {
+					panic(err)
+				}
+				stored = append(stored, J{"ledger": lj["ledger"], "id": lj["id"], "tz": tz, "text": probe.Transaction.Timestamp})
+			}
 		}
 	}
 	probe, _ := in["probe"].(map[string]any)
@@ -265,7 +288,11 @@ func execStoreView(in J) J {
 		}
 		out = append(out, lo)
 	}
-	return J{"ledgers": out}
+	res := J{"ledgers": out}
+	if len(stored) > 0 {
+		res["storedTimestamps"] = stored
+	}
+	return res
 }
 
 // ---------------------------------------------------------------- generator
@@ -339,6 +366,7 @@ func genStoreView(r *rng, n int, tier string, emit func(J)) {
 		assets := svAssets[:1+rr.n(len(svAssets))]
 		date := int64(1700000000000000) + int64(rr.n(1000))*1000000
 		unsorted := rr.p(10)
+		zoned := rr.p(5) // a few histories have transactions whose timestamp is written with a UTC offset
 		logs := []J{}
 		iks := []string{""}
 		for i := 0; i < nlogs; i++ {
@@ -373,6 +401,9 @@ func genStoreView(r *rng, n int, tier string, emit func(J)) {
 					}
 				}
 				tx := J{"id": g.nextTx, "postings": postings, "metadata": svGenMeta(rr, 2), "timestamp": ts, "reference": ""}
+				if zoned && rr.p(50) {
+					tx["tz"] = []int{120, -330, 60, 765}[rr.n(4)]
+				}
 				if rr.p(30) {
 					g.refs++
 					tx["reference"] = "ref" + string(rune('0'+g.refs%10))
